@@ -2,6 +2,8 @@ import XmppModel.Model.Encoder
 import XmppModel.Model.SendLts
 import XmppModel.Lemmas.Encoder
 import XmppModel.Lemmas.SendLts
+import XmppModel.Model.SendGuard
+import XmppModel.Lemmas.SendGuard
 import XmppModel.Generated.C05
 /-!
 # C05 — each transmit call puts exactly its own element on the wire, whole
@@ -654,5 +656,72 @@ theorem C05_atomic_fails_without_lock :
 open XmppModel.SendLts in
 example : (run (fun i => if i = 0 then ["a1", "a2"] else ["b1", "b2"]) (fun _ => true) (init String)
       [0, 0, 1, 1, 0, 1, 0, 1, 1, 1, 1]).wire = ["a1", "a2", "b1", "b2"] := by decide
+
+/-! ### Round C: the broken-element guard is evaluated under the lock
+
+Calls may stop inside their element (`failAt`); every call asks whether the stream is inside an
+unfinished element before it writes.  `entryGuard` / `holderGuard` (`C05_gen_broken_guard`) say
+that the source asks *after* `Lock` — `early i = false` for every call. -/
+
+/-- **guard under the lock**: any number of calls, any jobs, any of them stopping anywhere,
+**every schedule**: no call ever writes its first item inside another call's unfinished
+element (every element that is started is a top-level element of the stream), nobody is
+refused unless some call really failed, and between calls the encoder is inside an element
+only if a call stopped there -/
+theorem C05_guard_under_lock_refuses {α : Type} (p : SendGuard.Prog α) (he : ∀ i, p.early i = false)
+    (sched : List Nat) :
+    (SendGuard.run p (SendGuard.init α) sched).nested = [] ∧
+    (∀ i, (SendGuard.run p (SendGuard.init α) sched).pc i = .refused →
+        ∃ j, (SendGuard.run p (SendGuard.init α) sched).pc j = .failed) ∧
+    ((SendGuard.run p (SendGuard.init α) sched).lock = none →
+      (SendGuard.run p (SendGuard.init α) sched).inside = true →
+        ∃ j, (SendGuard.run p (SendGuard.init α) sched).pc j = .failed) := by
+  have inv := SendGuard.inv_run p he sched _ (SendGuard.inv_init p)
+  refine ⟨inv.nested, inv.why_refused, ?_⟩
+  intro hl hi
+  rcases inv.why_inside hi with ⟨j, k, hj, _⟩ | hf
+  · rw [hl] at hj; cases hj
+  · exact hf
+
+/-- after a call has stopped inside its element the stream stays silent: whatever is scheduled
+afterwards, not one more item reaches the wire and no further call completes (every later
+call is refused — it does not report success for an element that is not top level) -/
+theorem C05_broken_stream_stays_silent {α : Type} (p : SendGuard.Prog α) (he : ∀ i, p.early i = false)
+    (sched later : List Nat)
+    (hl : (SendGuard.run p (SendGuard.init α) sched).lock = none)
+    (hi : (SendGuard.run p (SendGuard.init α) sched).inside = true) :
+    (SendGuard.run p (SendGuard.run p (SendGuard.init α) sched) later).wire =
+      (SendGuard.run p (SendGuard.init α) sched).wire ∧
+    (SendGuard.run p (SendGuard.run p (SendGuard.init α) sched) later).finished =
+      (SendGuard.run p (SendGuard.init α) sched).finished :=
+  SendGuard.dead_run p he later _ (SendGuard.inv_run p he sched _ (SendGuard.inv_init p)) hl hi
+
+/-- two calls: call 0 sends `a b c` and stops before `b`, call 1 sends `x y` -/
+def guardDemo (early : Bool) (fails : Bool) : SendGuard.Prog String :=
+  { job := fun i => if i = 0 then ["a", "b", "c"] else ["x", "y"],
+    failAt := fun i => if i = 0 ∧ fails then some 1 else none,
+    early := fun _ => early }
+
+/-- non-vacuity: under the lock, the call queued behind the one that stops is refused and the
+wire ends with the unfinished element -/
+example :
+    let s := SendGuard.run (guardDemo false true) (SendGuard.init String) [0, 0, 1, 0, 1, 1, 1]
+    s.pc 0 = .failed ∧ s.pc 1 = .refused ∧ s.wire = ["a"] ∧ s.lock = none ∧ s.inside = true := by
+  decide
+
+/-- **the hypothesis is necessary** (the "fail fast" rewrite: probe in front of `Lock`): call 1
+looks at the encoder, queues behind call 0, call 0 stops inside its element and releases the
+lock, call 1 writes its element INSIDE the unfinished one and reports success -/
+theorem C05_guard_before_lock_nests :
+    let s := SendGuard.run (guardDemo true true) (SendGuard.init String) [1, 0, 0, 0, 0, 1, 1, 1, 1]
+    s.pc 0 = .failed ∧ s.pc 1 = .done ∧ s.nested = [1] ∧ s.wire = ["a", "x", "y"] := by
+  decide
+
+/-- the same rewrite also refuses calls for no reason: nobody fails, call 1 merely looks while
+call 0 is in the middle of its element (an unlocked look cannot tell "broken" from "busy") -/
+theorem C05_guard_before_lock_refuses_spuriously :
+    let s := SendGuard.run (guardDemo true false) (SendGuard.init String) [0, 0, 0, 1, 0, 0, 0]
+    s.pc 0 = .done ∧ s.pc 1 = .refused ∧ ∀ j, j < 2 → s.pc j ≠ .failed := by
+  decide
 
 end XmppModel.Props.C05
